@@ -7,7 +7,7 @@
  * Byte format (mirrored by vf/props/c14.py encode()):
  *   byte 0: variant  (v%3: 0 plain, 1 tree gravity + box, 2 integrator mercurius)
  *   byte 1: flags    (tree: bit0 -> 2x2x2 root boxes instead of 1)
- *   then ops, opcode = byte % 9, fixed argument bytes follow (missing bytes end the history):
+ *   then ops, opcode = byte % 10, fixed argument bytes follow (missing bytes end the history):
  *   0 ADD     hk hv_lo hv_hi n    add n particles (n: <128 -> n%4+1, else 60+(n-128)), hash selector (hk,hv)
  *   1 RM_I    mode k ks           remove by index; k is int8; mode bit0: index = N-1-k instead of k
  *   2 RM_H    hk hv_lo hv_hi ks   remove by hash
@@ -17,6 +17,8 @@
  *   6 N_ACT   k                   N_active = k % (N+2) - 1
  *   7 AUX                         tree: reb_simulation_update_tree; mercurius: one step (only star at index 0, N>=2)
  *   8 LOOK_ALL                    look up the hash of every model particle and of every pool value
+ *   9 ADD_OUT sel m               tree variant: add a particle outside the box (axis sel%3, sign bit 2 of sel>>2.., margin m%4):
+ *                                 must fail with an error and change nothing
  * Hash selector: hk%3 == 0 -> 0; 1 -> POOL[hv%8]; 2 -> 0x1000 + hv%1024 (for ADD: 0x1000 + own tag).
  *
  * Model: tags are unique per added particle and stored in the particle radius, r = (tag+1) * 2^-40.
@@ -276,7 +278,7 @@ static void run_one(const uint8_t* d, size_t n){
     }
     int steps = 0;
     while (pos < n){
-        int op = d[pos++] % 9;
+        int op = d[pos++] % 10;
         opno++;
         switch (op){
             case 0: {
@@ -368,6 +370,26 @@ static void run_one(const uint8_t* d, size_t n){
                         verify(r, 1);
                         if (r->ri_mercurius.N_allocated_dcrit < r->N) FAIL("after a step dcrit has %u entries for N=%u", r->ri_mercurius.N_allocated_dcrit, r->N);
                     }
+                }
+                break; }
+            case 9: {
+                opname = "add_out";
+                NEED(2);
+                int sel = d[pos], mg = d[pos + 1] % 4; pos += 2;
+                if (variant == 1){
+                    const double half = 50.0;
+                    double out = mg == 0 ? nextafter(half, 1e300) : (mg == 1 ? half + 1e-4 : (mg == 2 ? 75.0 : 1e6));
+                    if (sel & 4) out = -out;
+                    struct reb_particle p; memset(&p, 0, sizeof(p));
+                    p.m = 1.0; p.x = 1.0; p.y = 2.0; p.z = 3.0; p.hash = POOL[sel % 8];
+                    if (sel % 3 == 0) p.x = out; else if (sel % 3 == 1) p.y = out; else p.z = out;
+                    struct snap s = take(r);
+                    reb_simulation_add(r, p);
+                    drain(r, &nerr);
+                    if (!nerr) FAIL("add outside the box (%g) produced no error message", out);
+                    unchanged(r, &s, "rejected add outside the box");
+                    verify(r, 1);
+                    drop(&s);
                 }
                 break; }
             case 8: {
